@@ -1,6 +1,7 @@
 import ZCV.Model.Conv
 import ZCV.Lemmas.Except
 import ZCV.Lemmas.LoadSpec
+import ZCV.Lemmas.TextLoad
 namespace ZCV.Props.C02
 open ZCV ZCV.Cfg
 
@@ -54,5 +55,29 @@ theorem C02_value_eq_denote (conv : Conv) (s : Schema) (items : List Item) (v : 
   have e := loadTree_eq_denote conv s items hs ht
   rw [h] at e
   exact e.symm
+
+open ZCV.Conf in
+/-- the same for configuration TEXT (no `%import`, no overrides): the configuration returned for an accepted text is
+    `denote` of the tree the parser builds from it -/
+theorem C02_text_value_eq_denote (conv : Conv) (env : Env) (pkgs : Str → Pkg) (s : Schema) (url : Option Str)
+    (lines : List Str) (r : LoadResult) (hs : schemaOK s = true) (hlow : ∀ x : Str, lower (lower x) = lower x)
+    (hkeys : ∀ p ∈ s.types, lower p.1 = p.1)
+    (hni : ∀ l ∈ lines, NoImportLine l) (hres : ∀ u ls, env.res u = some ls → ∀ l ∈ ls, NoImportLine l)
+    (h : load conv env pkgs s url lines [] = .ok r) :
+    ∃ items, treeOf env url lines = .ok items ∧ denote conv s items = some r.value := by
+  have e := load_eq_loadTree conv env pkgs s url lines hni hres
+  rw [h] at e
+  cases ht : treeOf env url lines with
+  | error x => rw [ht] at e; simp [Except.toOption] at e
+  | ok items =>
+    rw [ht] at e
+    have hc := treeOf_tyCanon env url lines s items hs hlow hkeys ht
+    simp only [Except.toOption, Option.map_some, Option.bind_some] at e
+    cases hl : loadTree conv s items with
+    | error x => rw [hl] at e; simp at e
+    | ok v =>
+      rw [hl] at e
+      simp only [Option.some.injEq] at e
+      exact ⟨items, rfl, by rw [e]; exact C02_value_eq_denote conv s items v hs hc hl⟩
 
 end ZCV.Props.C02
